@@ -301,7 +301,7 @@ def run_history(scen):
     """Executed in ONE process (a forked child): returns per-step records."""
     asmsim.init()
     log = core.EventLog(keep=400)
-    fs = SimFS(files_bytes(scen['files'], scen['bins']), scen['dirs'], cwd=scen['cwd0'])
+    fs = asmsim.make_fs(files_bytes(scen['files'], scen['bins']), scen['dirs'], cwd=scen['cwd0'])
     shared_inc = list(scen['shared_inc'])
     shared_inc_copy = list(shared_inc)
     tables0 = module_tables()
@@ -310,7 +310,7 @@ def run_history(scen):
     inv = []
     for si, op in enumerate(scen['ops']):
         if op['op'] == 'write':
-            old = fs.files.get(op['path'], b'').decode('utf-8')
+            old = (fs.files.get(op['path']) or b'').decode('utf-8')
             fs.put(op['path'], apply_edit(old, op['edit'], op['arg']))
             log.add('write', op['path'], op['edit'])
             steps.append(None)
@@ -321,7 +321,7 @@ def run_history(scen):
             steps.append(None)
             continue
         if op['op'] == 'create':
-            fs.put(op['path'], fs.files.get(op['like'], b'').decode('utf-8').rstrip('\n') + '\n    xori t0, t0, 1\n')
+            fs.put(op['path'], (fs.files.get(op['like']) or b'').decode('utf-8').rstrip('\n') + '\n    xori t0, t0, 1\n')
             log.add('create', op['path'])
             steps.append(None)
             continue
@@ -378,7 +378,7 @@ def run_history(scen):
 def run_single(files, dirs, cwd, call, inj):
     """The pristine-process reference for one step."""
     asmsim.init()
-    fs = SimFS(files, dirs, cwd=cwd, faults=copy.deepcopy(inj['faults']) if inj and inj['kind'] == 'fs' else [])
+    fs = asmsim.make_fs(files, dirs, cwd=cwd, faults=copy.deepcopy(inj['faults']) if inj and inj['kind'] == 'fs' else [])
     out = asmsim.run_api(fs, call, core.EventLog(0), inject=inj if inj and inj['kind'] == 'line' else None)
     rec = norm_outcome(out)
     rec['fs_fired'] = len(fs.fired)
@@ -403,7 +403,7 @@ def run_scenario(scen, keep_events=False):
     res = core.Result()
     if scen['kind'] == 'hscli':
         return run_hscli(scen, res, keep_events)
-    hist = core.run_isolated(run_history, scen, timeout=300)
+    hist = core.run_isolated(asmsim.retry_real, run_history, scen, timeout=300)
     for v in hist['inv']:
         if v['cls'] == 'observation':
             res.observe('module-container-changed:' + v['key'])
@@ -450,7 +450,7 @@ def run_scenario(scen, keep_events=False):
         inj = op.get('inject')
         key = hashlib.sha256(json.dumps([sorted(files.items()), sorted(bins.items()), cwd, call, inj], sort_keys=True, default=repr).encode()).hexdigest()
         if key not in memo:
-            memo[key] = core.run_isolated(run_single, files_bytes(files, bins), scen['dirs'] + [cwd], cwd, call, inj, timeout=120)
+            memo[key] = core.run_isolated(asmsim.retry_real, run_single, files_bytes(files, bins), scen['dirs'] + [cwd], cwd, call, inj, timeout=120)
         base = memo[key]
         n_asm += 1
         cls = 'ok' if rec['ok'] else ('crash' if rec['exc'] == 'SimCrash' else 'refused')
